@@ -57,6 +57,8 @@ func c19(w *core.World, r *core.Report) {
 	ruleBatchPoisoned(w, r)
 	r.Rule("R19.11", "Exec returns only after every per-node worker has finished", 1)
 	ruleExecWaitsForAll(w, r)
+	r.Rule("R19.18", "a refused MOVED or ASK in transactional replay becomes 'typology changed'", 2)
+	ruleDirectErrorEscalates(w, r)
 }
 
 func ruleRepliesClassified(w *core.World, r *core.Report) {
